@@ -212,6 +212,9 @@ def main():
         if key not in balancers:
             balancers[key] = Balancer(reaction_col=col, n_jobs=run.get("n_jobs", 1))
         b = balancers[key]
+        if run.get("fresh"):
+            # a new object for this call: nothing an earlier call left in the object can be seen
+            b = Balancer(reaction_col=col, n_jobs=run.get("n_jobs", 1))
         if run.get("ctor"):
             # the threshold (and batch size) given to the constructor of a new object instead of being assigned
             b = Balancer(reaction_col=col, n_jobs=run.get("n_jobs", 1), confidence_threshold=run.get("threshold", 0))
